@@ -1,4 +1,4 @@
-//@unit U9 props=C01,C03,C08,C13,C14,C15 body of the 'messages loop of SendChannelReliable::get_packets_to_send (renet/src/channel/reliable.rs, rule D6)
+//@unit U9 props=C01,C02,C03,C08,C13,C14,C15 body of the 'messages loop of SendChannelReliable::get_packets_to_send (renet/src/channel/reliable.rs, rule D6)
 #![feature(allocator_api)]
 #![allow(unused_imports, dead_code, unused_variables, unused_mut)]
 use vstd::prelude::*;
@@ -125,7 +125,7 @@ pub proof fn d6_loop_left_early()
                         proof {
                             let pk = packets@.last();
                             assert(packets@.drop_last() =~= pkx);
-                            assert(rpkt_ok(pk, seq0 + (pkx.len() - p0.len()), channel_id, message_id, um0, current_time, resend_time));   // @C01,C03,C13,C15 send_loop.emitted_slice_is_unacked_due_and_cut_from_this_message
+                            assert(rpkt_ok(pk, seq0 + (pkx.len() - p0.len()), channel_id, message_id, um0, current_time, resend_time));   // @C01,C02,C03,C13,C15 send_loop.emitted_slice_is_unacked_due_and_cut_from_this_message
                             lemma_rnew_push(p0, pkx, pk, seq0, channel_id, message_id, um0, current_time, resend_time, sm0);
                             lemma_packets_payload_push(pkx, pk);
                             assert(pkx.push(pk) =~= packets@);
